@@ -90,7 +90,7 @@ NOT_APPLICABLE = {
     'C05': 'every anchor is an AST-to-plan transformation or a join operator over Database/evaluator state: AST walks do not finish in CBMC and the code is outside the Verus subset',
     'C11': 'atomicity is a frame condition over the whole Database through executors, evaluator and triggers; discharging it needs the whole executor inside the verifier',
     'C12': 'two-table history invariant enforced by four executors through evaluator and catalog; no function-sized kernel carries a clause',
-    'C16': 'DiskBacked arms need a live BTreeIndex over file I/O inside HashMap-iterating closure-heavy maintenance bodies; cannot be extracted mechanically',
+    'C16': 'the EFFECT of the disk-backed arms is a live BTreeIndex over page / file I/O (bulk_load, rebalancing): opaque in every unit, so "same results on both backends" has no contract to stand on; the backend choice (row threshold, memory budget, spill policy, spill_index_to_disk) is not under contract either. Partially reached under C15: which B+ tree operation a single-row maintenance step may call is constrained (unit I-maint: BTreeIndex::delete removes every position of a key - fix f6f71441, found by reading and reproduced with a 1-byte memory budget); the B+ tree node operations themselves are C17',
     'C19': 'String/chars()/lines() scanners: Verus has no str iteration theory; CBMC cannot get past 3 symbolic bytes (Date::from_str on 6 bytes = 25 GB)',
     'C22': 'from_str/Display go through str parsing and core::fmt padding: 3 ASCII bytes = 78 s in CBMC, 6 bytes does not finish; no str theory in Verus',
     'C23': 'totality/termination/stack depth of a 25 kLoC &str recursive-descent parser: outside Verus string support; Kani input bound of 3 bytes says nothing',
